@@ -166,6 +166,9 @@ def make_signal(data, cls, rate, start, dask, chunks=None):
     if cls == "BasebandSignal":
         kw["center_freq"] = 1.4 * u.GHz
         return pb.BasebandSignal(data, **kw)
+    if cls == "DualPolarizationSignal":
+        kw["center_freq"] = 327 * u.MHz
+        return pb.DualPolarizationSignal(data, pol_type="circular", **kw)
     return pb.Signal(data, **kw)
 
 
@@ -180,6 +183,8 @@ def meta_of(s):
         m["cbw"] = common.snapshot(s.chan_bw)
         m["align"] = s.freq_align
         m["labels"] = common.snapshot(s.channel_freqs)
+    if hasattr(s, "pol_type"):
+        m["pol_type"] = s.pol_type
     return m
 
 
